@@ -230,6 +230,58 @@ pub fn c10_cancel(cx: &mut Ctx) {
     let holds_anything = |x: u32, a_us: u64, b_us: u64| -> bool { holds.get(&x).map(|v| v.iter().any(|(_, f, t)| *f <= b_us && a_us <= *t)).unwrap_or(false) };
     let mut cancels: Vec<&crate::world::CancelRec> = h.cancels.iter().collect();
     cancels.sort_by_key(|r| r.seq);
+    // Packets and requests are paired one to one. Several requests can be in flight at the same
+    // instant, so the pairing is a maximum matching (augmenting paths), not first come first
+    // served: a packet is unjustified only if no pairing at all accounts for it.
+    let mut edges: Vec<Vec<usize>> = Vec::new();
+    for r in &cancels {
+        let mut e = Vec::new();
+        if let Some((ci, bc)) = h.backend_conns.iter().enumerate().find(|(_, bc)| bc.kind == "session" && bc.host == r.host && bc.pid == r.pid) {
+            if bc.key == r.key {
+                for (i, cs) in steps.iter().enumerate() {
+                    if cs.s.sent_seq >= r.seq {
+                        break;
+                    }
+                    let x = match cs.x {
+                        Some(x) => x,
+                        None => continue,
+                    };
+                    if cs.s.done_seq > 0 && r.us > cs.s.done_us.saturating_add(slack_us) {
+                        continue;
+                    }
+                    if held(x, ci, cs.s.start_us, r.us) {
+                        e.push(i);
+                    }
+                }
+            }
+        }
+        edges.push(e);
+    }
+    fn augment(p: usize, edges: &[Vec<usize>], owner: &mut Vec<Option<usize>>, seen: &mut Vec<bool>) -> bool {
+        for &st in &edges[p] {
+            if seen[st] {
+                continue;
+            }
+            seen[st] = true;
+            if owner[st].is_none() || augment(owner[st].unwrap(), edges, owner, seen) {
+                owner[st] = Some(p);
+                return true;
+            }
+        }
+        false
+    }
+    let mut owner: Vec<Option<usize>> = vec![None; steps.len()];
+    for p in 0..cancels.len() {
+        let mut seen = vec![false; steps.len()];
+        augment(p, &edges, &mut owner, &mut seen);
+    }
+    let mut pairing: BTreeMap<u64, usize> = BTreeMap::new();
+    for (st, o) in owner.iter().enumerate() {
+        if let Some(p) = o {
+            pairing.insert(cancels[*p].seq, st);
+            steps[st].used = true;
+        }
+    }
     for r in &cancels {
         cx.probe("c10_cancel_at_backend");
         // 1. the packet names a backend session of that host, with that session's own key
@@ -245,18 +297,17 @@ pub fn c10_cancel(cx: &mut Ctx) {
             cx.v("C10", "cancel_target", "C10/cancel_with_wrong_server_key", r.seq, format!("CancelRequest for pid {} at {} carried key {} (the session's key is {})", r.pid, r.host, r.key, bc.key));
             continue;
         }
-        // 2. justification
-        let mut chosen: Option<usize> = None;
+        // 2. justification: the request this packet was paired with (see `pairing` below)
+        let chosen: Option<usize> = pairing.get(&r.seq).cloned();
         let mut seen_valid_unused = false;
         let mut seen_valid = false;
-        for (i, cs) in steps.iter().enumerate() {
+        for cs in steps.iter() {
             if cs.s.sent_seq >= r.seq {
                 break;
             }
-            let x = match cs.x {
-                Some(x) => x,
-                None => continue,
-            };
+            if cs.x.is_none() {
+                continue;
+            }
             seen_valid = true;
             if cs.used {
                 continue;
@@ -265,10 +316,6 @@ pub fn c10_cancel(cx: &mut Ctx) {
                 continue;
             }
             seen_valid_unused = true;
-            if held(x, ci, cs.s.start_us, r.us) {
-                chosen = Some(i);
-                break;
-            }
         }
         match chosen {
             Some(i) => {
